@@ -64,7 +64,8 @@ theorem addStaticCore_stores (c : Conf) (mac : Bytes) (ip : Nat) (host : Bytes) 
 /-- One step other than a restart either ends with `dbStore` or leaves table
 and file as they were.  (In `UpdateStaticLease` the second `addLease` cannot
 fail once the checks have passed.) -/
-theorem step_store_or_same {O : Oracle} {c : Conf} {s : State} {op : Op} (h : Inv c s) (hne : op ≠ .restart) :
+theorem step_store_or_same {O : Oracle} {c : Conf} {s : State} {op : Op} (h : Inv c s) (hne : op ≠ .restart)
+    (hnr : ∀ d, op ≠ .reorder d) :
     Stores (step O c s op) ∨ ((step O c s op).1.leases = s.leases ∧ (step O c s op).1.disk = s.disk) := by
   have h0 : Inv c { s with stale := [] } := Inv_congr h rfl rfl rfl rfl rfl rfl
   unfold step
@@ -139,12 +140,16 @@ theorem step_store_or_same {O : Oracle} {c : Conf} {s : State} {op : Op} (h : In
       · exact .inl ⟨_, rfl⟩
   | sleep d => exact .inr ⟨rfl, rfl⟩
   | restart => exact absurd rfl hne
+  | reorder d => exact absurd rfl (hnr d)
 
 /-- One step other than a restart keeps (or re-establishes) the mirror. -/
 theorem Mirror_step {O : Oracle} {c : Conf} {s : State} {op : Op} (h : Inv c s) (hm : Mirror s)
     (hne : op ≠ .restart) : Mirror (step O c s op).1 := by
-  rcases step_store_or_same (O := O) h hne with hs | ⟨h1, h2⟩
-  · exact hs.mirror
-  · exact Mirror_congr hm h1 h2
+  by_cases hr : ∃ d, op = .reorder d
+  · obtain ⟨d, rfl⟩ := hr
+    exact Mirror_reorder d (Mirror_congr hm rfl rfl)
+  · rcases step_store_or_same (O := O) h hne (fun d e => hr ⟨d, e⟩) with hs | ⟨h1, h2⟩
+    · exact hs.mirror
+    · exact Mirror_congr hm h1 h2
 
 end AGH.C10
